@@ -134,6 +134,26 @@ fn main() {
                 None => println!("none"),
             }
         }
+        Some("dump-corpus") => {
+            let dir = args.get(2).cloned().unwrap_or_else(|| usage());
+            for (i, (_, b)) in corpus::all().iter().enumerate() {
+                let _ = std::fs::write(format!("{}/c{}.wasm", dir, i), b);
+            }
+        }
+        Some("evidence-add") => {
+            // evidence-add <ID> <key> <json>: merge a value into coverage
+            let id = args.get(2).cloned().unwrap_or_else(|| usage());
+            let key = args.get(3).cloned().unwrap_or_else(|| usage());
+            let val: serde_json::Value = serde_json::from_str(args.get(4).map(|s| s.as_str()).unwrap_or("null")).unwrap_or(serde_json::Value::Null);
+            let dir = std::env::var("VERIF_DIR").unwrap_or_else(|_| "/verif".into());
+            let p = format!("{}/evidence/{}.json", dir, id);
+            if let Ok(t) = std::fs::read_to_string(&p) {
+                if let Ok(mut v) = serde_json::from_str::<serde_json::Value>(&t) {
+                    v["coverage"][key] = val;
+                    let _ = std::fs::write(&p, serde_json::to_string_pretty(&v).unwrap());
+                }
+            }
+        }
         Some("dbg-c10") => {
             let path = args.get(2).cloned().unwrap_or_else(|| usage());
             let (_, input) = load_replay(&path).unwrap();
